@@ -411,7 +411,9 @@ def items(ctx):
     # drop pairs of two pure readers
     pairs = [p for p in pairs if not (p[0] in ("read", "as_dict") and p[1] in ("read", "as_dict"))]
     for st in states:
-        for a, b in pairs:
+        for k, (a, b) in enumerate(pairs):
+            if not ctx.thorough and (k + states.index(st) + ctx.seed) % 2:
+                continue  # quick: every pair in two of the four initial layouts (rotating with the seed)
             if st == "absent" and a in ("rm(v0)", "cas(v0->v1)", "cas(v0->v2)") and b in ("rm(v0)", "cas(v0->v1)", "cas(v0->v2)"):
                 continue
             out.append((st, [[a], [b]], bound, cap))
@@ -450,6 +452,12 @@ def run(ctx):
 
 
 def replay(ctx, check, case):
+    if case.get("explore"):
+        # a pinned schedule goes stale whenever the code under test gains or loses a file-system call; an *open*
+        # finding is therefore re-found by exploring its scenario (same bounds as the search tier, larger cap)
+        before = set(ctx.violations)
+        _explore(ctx, (case["init"], [list(p) for p in case["programs"]], 2, 160))
+        return
     tdir = ctx.scratch.new("tmpl")
     template = os.path.join(tdir, "repo")
     vs = build_template(template, case["init"])
